@@ -208,6 +208,7 @@ def split_op(o):
     return ("start" if name == "mstart" else name), arg
 
 
+DLCOV = {}      # measured: timed waits by primitive x clock phase (tv_nsec carry or not) x time-out >= 1 s x result
 STATS = {}      # measured: how often each call returned what, non-default alternatives taken, ticks (filled by `contracts`)
 
 
@@ -340,6 +341,13 @@ def contracts(sc, tr):
                 if int(v) != sc.progs[j][0] % (2 ** 32):
                     errs.append(f"Thread::join-{j} returned {v}, the thread function returned {sc.progs[j][0]}")
                 handle[j] = False
+        if op == "twait":
+            # clock phase of the call: does (ns within the second) + (timeout % 1000) ms cross a full second (tv_nsec carry)?
+            carry = (c.tb % NSEC) + (c.arg % 1000) * 1000000 >= NSEC
+            key = f"{sc.prim} nsec-carry={'yes' if carry else 'no'} timeout>=1000ms={'yes' if c.arg >= 1000 else 'no'} returned={v}"
+            DLCOV[key] = DLCOV.get(key, 0) + 1
+            if v == "0" and c.te == c.tb + c.arg * 1000000:
+                DLCOV[f"{sc.prim} false exactly at the deadline"] = DLCOV.get(f"{sc.prim} false exactly at the deadline", 0) + 1
         if op == "twait" and v == "0":
             if c.te < c.tb + c.arg * 1000000:
                 errs.append(f"timed wait of thread {t} (op {c.k}, {c.arg} ms) returned false at virtual time {c.te} < call time {c.tb} + time-out")
@@ -525,7 +533,7 @@ class Explorer:
                     for pos in range(len(p), min(depth, len(tr.steps))):
                         t, a, cands, _ = tr.steps[pos]
                         for c in cands:
-                            if c != (t, a):
+                            if c != (t, a) and pos < 500:          # the harness takes at most 512 explicit choices
                                 new.setdefault(i, []).append(tuple(ch[:pos]) + (c,))
             pending = {}
             for i, prefs in new.items():
@@ -592,12 +600,24 @@ FIXED_SCENARIOS = [
     "scen thr 0 0 0 1 0 0 T:0:join-1,start-1,start-1,join-1,join-1 T:4294967295:",
     "scen thr 0 0 0 1 0 0 T:7:mstart-1,mstart-1,join-1,join-1 T:2147483648:mstart-2,join-2 T:3:",
     "scen sig 0 5 0 1 1 0 T:0:start-1,wait,destroy,join-1 T:1:set",
+] + [
+    # deadline arithmetic: timed waits of every primitive at clock phases where (ms within the second + timeout % 1000) does /
+    # does not cross 1000, with time-outs below and above one second; the last one expires exactly at a tick
+    l.replace("PRIM", p).replace("TW", tw).replace("GIVE", give)
+    for p, tw, give in (("sig", "twait", "set"), ("sem", "twait", "signal"), ("mon", "lock,twait", "set"))
+    for l in (
+        "scen PRIM 0 5 600000000 500000000 0 0 T:0:start-1,start-2,start-3,GIVE,join-1,join-2,join-3 T:1:TW-1500UNL T:2:TW-999UNL T:3:TW-2400UNL",
+        "scen PRIM 0 1700000000 100000000 500000000 0 0 T:0:start-1,start-2,start-3,join-1,join-2,join-3 T:1:TW-2400UNL T:2:TW-1000UNL T:3:TW-2UNL",
+        "scen PRIM 0 5 999000000 500000 1 1 T:0:start-1,start-2,join-1,join-2 T:1:TW-1UNL,TW-1UNL T:2:TW-0UNL",
+    )
 ]
+FIXED_SCENARIOS = [l.replace("UNL", ",unlock" if l.startswith("scen mon") else "") for l in FIXED_SCENARIOS]
 
 
 def check(ctx):
     quick = ctx.tier == "quick"
     STATS.clear()
+    DLCOV.clear()
     ctx.assumptions += [
         "POSIX semantics as written in lean/Nstd/Sync/Posix.lean and implemented by harness/sync/sched.cpp (glibc / kernel are NOT verified): "
         "recursive and default mutexes, condition variables with spurious wake-ups, pthread_cond_signal wakes one waiter if any, a timed-out "
@@ -618,8 +638,8 @@ def check(ctx):
         ex.run(corpus)
         # 2. exhaustive schedules of the first `depth` scheduling points
         depth = 8 if quick else 11
-        cap = 1500 if quick else 30000
-        nscen = 32 if quick else 60
+        cap = 1200 if quick else 30000
+        nscen = 26 if quick else 60
         scens = [Scen.parse(l) for l in FIXED_SCENARIOS] + [gen_scen(ctx.rng) for _ in range(nscen)]
         if not proof_ok:
             ctx.log("proof stage broken: searching harder for a failing input")
@@ -630,7 +650,7 @@ def check(ctx):
                 f"{len(ex.diffs)} disagreement(s)")
         # 2b. bounded deviation at ANY depth: all schedules that leave the default policy at most `ndev` times
         ndev = 2 if quick else 3
-        dcap = 1500 if quick else 20000
+        dcap = 1000 if quick else 20000
         dtotal, dcomplete = ex.exhaustive(scens, 10 ** 6, dcap, max_dev=ndev)
         ndcomplete = sum(1 for i in dcomplete if dcomplete[i])
         ctx.log(f"<= {ndev} deviations at any depth: {sum(dtotal.values())} runs ({ndcomplete} scenarios enumerated completely), "
@@ -652,6 +672,12 @@ def check(ctx):
         ctx.cov["scenarios_per_primitive"] = prims
         ctx.cov["verdicts"] = ex.verdicts
         ctx.cov["branch_hits"] = dict(sorted(STATS.items()))
+        ctx.cov["deadline_coverage"] = dict(sorted(DLCOV.items()))
+        missing = [f"{p} carry={c} >=1000ms={b}" for p in ("sig", "mon", "sem") for c in ("yes", "no") for b in ("yes", "no")
+                   if not any(k.startswith(f"{p} nsec-carry={c} timeout>=1000ms={b} ") for k in DLCOV)]
+        ctx.log(f"deadline arithmetic: {sum(v for k, v in DLCOV.items() if 'nsec-carry' in k)} timed waits, classes missing: {missing or 'none'}")
+        if missing:
+            ctx.broken.append("deadline-arithmetic coverage of the correspondence run is incomplete: " + ", ".join(missing))
         ctx.cov["longest_run_scheduling_points"] = ex.max_points
         ctx.cov["exhaustive"] = False
         ctx.cov["exhaustive_scope"] = (f"all choice sequences (threads x alternatives incl. spurious wake-up, EINTR, time-out, clock tick) of the first "
